@@ -10,10 +10,12 @@ use std::cell::RefCell; use std::sync::Mutex; use std::rc::Rc;
 #[derive(Debug, Clone, PartialEq)] struct User { id: i32, name: String }
 #[derive(Debug, Clone, PartialEq)] enum St { Idle, Busy(i32), Named { n: i32 } }
 #[derive(Debug)] struct Holder { current: RefCell<Option<User>>, cached: Mutex<Option<String>>, last: Mutex<Result<User, String>>, hist: RefCell<Vec<i32>>,
-  st: RefCell<St>, name: String, pair: RefCell<(i32, String)>, shared: Rc<RefCell<Vec<String>>> }
+  st: RefCell<St>, name: String, pair: RefCell<(i32, String)>, shared: Rc<RefCell<Vec<String>>>, arc: std::sync::Arc<Vec<i32>>, rcv: Rc<Vec<i32>>, bxv: Box<Vec<i32>>,
+  mv: Mutex<Vec<i32>> }
 fn holder() -> Holder { Holder { current: RefCell::new(Some(User { id: 1, name: "al".into() })), cached: Mutex::new(Some("x".to_string())),
   last: Mutex::new(Ok(User { id: 2, name: "bo".into() })), hist: RefCell::new(vec![1, 2, 3]), st: RefCell::new(St::Busy(4)), name: "n".into(),
-  pair: RefCell::new((7, "p".to_string())), shared: Rc::new(RefCell::new(vec!["a".to_string()])) } }
+  pair: RefCell::new((7, "p".to_string())), shared: Rc::new(RefCell::new(vec!["a".to_string()])), arc: std::sync::Arc::new(vec![1, 2]), rcv: Rc::new(vec![1, 2]),
+  bxv: Box::new(vec![1, 2]), mv: Mutex::new(vec![4, 5]) } }
 """
 # patterns for a root value `h: Holder`
 FIELD_PATTERNS = [
@@ -27,6 +29,10 @@ FIELD_PATTERNS = [
     "Holder { shared.borrow().first(): Some(_), .. }", "Holder { shared.borrow().len(): 1, .. }", "Holder { current.borrow().clone(): Some(User { id: == 1, .. }), .. }",
     "Holder { current.borrow().as_ref().map(|u| u.id): Some(1), .. }", "Holder { cached.lock().unwrap().clone(): Some(=~ r\"^x$\"), .. }",
     "Holder { last.lock().unwrap().clone(): Ok(_ { name: \"bo\", .. }), .. }",
+    # a collection that is only reachable through Deref (a guard, an Arc / Rc / Box) straight under a slice or set pattern
+    "Holder { hist.borrow(): [1, 2, 3], .. }", "Holder { hist.borrow(): [1, ..], .. }", "Holder { hist.borrow(): #(3, 1, 2), .. }", "Holder { mv.lock().unwrap(): [4, 5], .. }",
+    "Holder { shared.borrow(): [\"a\"], .. }", "Holder { arc: [1, 2], .. }", "Holder { rcv: [.., 2], .. }", "Holder { bxv: [1, _], .. }", "Holder { arc: #(2, 1), .. }",
+    "_ { arc: [1, 2], bxv: [1, 2], .. }", "Holder { arc.clone(): [1, 2], .. }",
 ]
 # (root expression, pattern) with `h: Holder` in scope
 ROOT_CASES = [
@@ -34,6 +40,15 @@ ROOT_CASES = [
     ("h.hist.borrow().len()", "3"), ("h.st.borrow().clone()", "St::Busy(4)"), ("h.name.clone().as_str()", "\"n\""), ("h.hist.borrow().clone()", "[1, .., 3]"),
     ("h.last.lock().unwrap().as_ref()", "Ok(_ { id: 2, .. })"),
 ]
+
+
+# recorded finding: a set pattern applied to a collection that is only reachable through Deref
+KNOWN_SET_BEHIND_DEREF = {
+    "id": "C02-set-pattern-on-a-collection-behind-deref",
+    "what": "a set pattern applied to a collection that is only reachable through Deref (a RefCell / Mutex guard, an Arc, Rc or Box of a Vec) is rejected by rustc "
+            "(E0507: the generated `.into_iter()` on `&Ref<Vec<T>>` / `&Arc<Vec<T>>` resolves to Vec's by-value IntoIterator through auto-deref): "
+            "`Holder { hist.borrow(): #(3, 1, 2), .. }` and `Holder { arc: #(2, 1), .. }` are true and do not compile, while the slice pattern on the same value does",
+}
 
 
 def run(res):
@@ -47,6 +62,12 @@ def run(res):
     for (v, p), o, src in zip(cases, out, progs):
         if o["compiled"] and o.get("exit") == 0:
             continue
+        if (not o["compiled"]) and "#(" in p and "E0507" in o["stderr"] and "into_iter" in o["stderr"]:
+            import vlib
+            if KNOWN_SET_BEHIND_DEREF["id"] in {f["id"] for f in vlib.load_known_findings()["findings"]}:
+                if KNOWN_SET_BEHIND_DEREF["what"] not in res.known:
+                    res.known.append(KNOWN_SET_BEHIND_DEREF["what"])
+                continue
         bad += 1
         if bad <= 3:
             first = next((l for l in o["stderr"].splitlines() if l.startswith("error")), "the true assertion failed at run time") if not o["compiled"] else "the true assertion failed at run time"
